@@ -87,8 +87,52 @@ Case(t, v, x, table) ==
   /\ act' = [name |-> "case", type |-> t, variant |-> v, src |-> x, table |-> table,
              effect |-> Allowed(t, v, x, table)]
 
+(***************************************************************************)
+(* The history "good-bye, then the sessions are lost".  Some routers `off`  *)
+(* have said good-bye (a genuine disconnect with GoingDown: their offline   *)
+(* flag is set in the victim's storage) and the victim has lost session      *)
+(* objects since - the session cleaner dropped every idle session, or only   *)
+(* the ones without keys (one minute instead of one hour), or the victim     *)
+(* was restarted on the same storage.  Then a ping claiming X arrives.  The  *)
+(* rule is the same: only a ping that is authentic as X may change anything, *)
+(* and then only what its type allows.  The property is silent on whether a  *)
+(* router that is authentically heard from again is still "offline": X's own *)
+(* flag may change with any authentic ping of X, nobody else's ever.         *)
+(* "forged-hop": a genuine announcement of peer X that arrives dressed with  *)
+(* a hop record naming a router of `off` which that router never signed for  *)
+(* this announcement; whatever the victim does with the announcement, it is  *)
+(* authentic for X only.                                                     *)
+(* "replayed-after-loss": a verbatim copy of a genuine ping of X that the    *)
+(* victim received BEFORE it lost the session objects (newer pings of X      *)
+(* followed), delivered again afterwards: a replay, it changes nothing.      *)
+(***************************************************************************)
+Known == {1, 2, 3, 4}
+LostVariants == {"genuine", "transit", "flip-header", "flip-pinghdr", "flip-body", "flip-sig",
+                 "src-rewritten", "dst-rewritten", "resealed", "forged-hop", "replayed-after-loss"}
+Hows == {"cleaner-all", "cleaner-unkeyed", "restart"}
+AuthenticLost(v) == v \in {"genuine", "transit", "forged-hop"}
+AllowedLost(t, v, x, table) == IF ~AuthenticLost(v) THEN NoEffect
+                               ELSE [Effect(t, x, table) EXCEPT !.offline = @ \cup {x}]
+PeerRoutes == {[dst |-> p, nh |-> p, path |-> <<0, p>>] : p \in Peers}
+LostTables == {PeerRoutes, PeerRoutes \cup {[dst |-> 4, nh |-> 2, path |-> <<0, 2, 4>>]}}
+Offs == {O \in SUBSET Known : O # {} /\ Cardinality(O) <= 2}
+(* what is left of the table once the routers of `off` have said good-bye *)
+AfterGoodbyes(table, off) == {r \in table : \A o \in off : ~Mentions(r, o)}
+
+LostCase(t, v, x, off, how, table) ==
+  /\ phase = "start" /\ phase' = "done"
+  /\ (t = "announce" => x \in Peers)
+  /\ (v = "forged-hop" => t = "announce")
+  \* a recorded good-bye of a router that is not among `off`: that router came back (announced itself) before the loss
+  /\ (v = "replayed-after-loss" /\ t = "disconnect-down" => x \in off \/ x \in Peers)
+  /\ act' = [name |-> "lost", type |-> t, variant |-> v, src |-> x, off |-> off, how |-> how, table |-> table,
+             effect |-> AllowedLost(t, v, x, AfterGoodbyes(table, off))]
+
 Tables == {T \in SUBSET Catalogue : Cardinality(T) <= 4 /\ \A p \in Peers : [dst |-> p, nh |-> p, path |-> <<0, p>>] \in T \/ Cardinality(T) <= 2}
-Next == phase = "start" /\ \E t \in Types, v \in Variants, x \in Routers, table \in Tables : Case(t, v, x, table)
+Next == phase = "start" /\
+          \/ \E t \in Types, v \in Variants, x \in Routers, table \in Tables : Case(t, v, x, table)
+          \/ \E t \in Types, v \in LostVariants, x \in Known, off \in Offs, how \in Hows, table \in LostTables :
+                LostCase(t, v, x, off, how, table)
 Spec == Init /\ [][Next]_vars
 
 (* Properties (C07). *)
@@ -98,6 +142,10 @@ DisconnectConfined == act.name = "case" /\ act.type \in {"disconnect-down", "dis
                         \A r \in act.effect.removed : Mentions(r, act.src)
 DisconnectComplete == act.name = "case" /\ act.type \in {"disconnect-down", "disconnect-list"} /\ Authentic(act.variant) =>
                         \A r \in act.table \ act.effect.removed : ~Mentions(r, act.src)
+
+LostOnlyAuthenticChanges == act.name = "lost" /\ ~AuthenticLost(act.variant) => act.effect = NoEffect
+LostOfflineConfined == act.name = "lost" => act.effect.offline \subseteq {act.src}     \* never the flag of another router
+LostDisconnectConfined == act.name = "lost" => \A r \in act.effect.removed : Mentions(r, act.src)
 
 DumpEdge == PrintT("EDGE " \o ToJson(phase) \o "\t" \o ToJson(act') \o "\t" \o ToJson(<<phase', act'>>))
 =============================================================================
